@@ -66,7 +66,7 @@ template <class S> void lattice(vf::Ctx& c, const char* tname, int p, int ni) {
   using Vec = typename Problem<S>::Vec;
   const bool dbl = std::is_same<S, double>::value;
   long double eps = std::numeric_limits<S>::epsilon();
-  std::vector<int> ns = {p, p + 1, 2 * p, 50, 500};
+  std::vector<int> ns = {p, p + 1, 2 * p, 50, 500, 31, 32, 64, 257};   // incl. sizes around multiples of the SIMD packet / typical block sizes
   int n = ns[ni];
   std::vector<long double> kappas = {1, 1e2L, 3e2L, 1e4L, 1e6L};
   std::vector<long double> mags = dbl ? std::vector<long double>{powl(2, -27), powl(2, -10), 1, powl(2, 10)} : std::vector<long double>{powl(2, -13), powl(2, -6), 1, powl(2, 6)};
@@ -180,18 +180,18 @@ template <class S> void sequences(vf::Ctx& c, const char* tname, int depth, int 
 
 }  // namespace
 
-// cases: L: 2 types x 8 p x 5 n ; S: 2 types x 81 first ops
-uint64_t vf_ncases(const std::string& tier) { return 80 + 162 + 80; }
+// cases: L: 2 types x 8 p x 9 n ; S: 2 types x 81 first ops
+uint64_t vf_ncases(const std::string& tier) { return 144 + 162 + 80; }
 
 void vf_run(uint64_t idx, const std::string& tier, vf::Ctx& c) {
-  if (idx < 80) { int t = idx / 40, p = (idx % 40) / 5 + 1, ni = idx % 5; if (t == 0) lattice<double>(c, "double", p, ni); else lattice<float>(c, "float", p, ni); }
-  else if (idx < 80 + 162) { int k = (int)idx - 80; int depth = tier == "thorough" ? 4 : 3; if (k < 81) sequences<double>(c, "double", depth, k); else sequences<float>(c, "float", depth, k - 81); }
-  else { int k = (int)idx - 242; if (k < 40) sequences<double>(c, "double", 0, k, true); else sequences<float>(c, "float", 0, k - 40, true); }
+  if (idx < 144) { int t = idx / 72, p = (idx % 72) / 9 + 1, ni = idx % 9; if (t == 0) lattice<double>(c, "double", p, ni); else lattice<float>(c, "float", p, ni); }
+  else if (idx < 144 + 162) { int k = (int)idx - 144; int depth = tier == "thorough" ? 4 : 3; if (k < 81) sequences<double>(c, "double", depth, k); else sequences<float>(c, "float", depth, k - 81); }
+  else { int k = (int)idx - 306; if (k < 40) sequences<double>(c, "double", 0, k, true); else sequences<float>(c, "float", 0, k - 40, true); }
 }
 
 std::string vf_describe(const std::string& tier) {
   vf::JO o;
-  o.str("L", "estimate size 1..8 x data size {p,p+1,2p,50,500} x kappa {1,1e2,3e2,1e4,1e6} x magnitude {2^-27,2^-10,1,2^10} (float {2^-13,2^-6,1,2^6}) x Y {consistent, inconsistent, strongly inconsistent} x weights {none, alternating 1/4..4, one zero, one huge} x preconditioner {none, diagonal, diagonal+offset, identity+offset}; cases with 8 p kappa^2 eps > 0.5 are skipped (no digits in the normal equations)");
+  o.str("L", "estimate size 1..8 x data size {p,p+1,2p,50,500,31,32,64,257} x kappa {1,1e2,3e2,1e4,1e6} x magnitude {2^-27,2^-10,1,2^10} (float {2^-13,2^-6,1,2^6}) x Y {consistent, inconsistent, strongly inconsistent} x weights {none, alternating 1/4..4, one zero, one huge} x preconditioner {none, diagonal, diagonal+offset, identity+offset}; cases with 8 p kappa^2 eps > 0.5 are skipped (no digits in the normal equations)");
   o.str("L_oracle", "Householder-QR solution in long double; |x - x_ref| <= 8 p eps kappa^2 (|x|+|Y|/smax); normal-equation residual; Cholesky vs SVD path");
   o.i("S_depth", tier == "thorough" ? 4 : 3).str("S_ops", "problem(p in 1..3 (setEstimateSize when it changes), n in {p,p+2,8}, solver in {Cholesky, SVD, weighted}, preconditioner {kept, setPreconditionner(A,b), setPreconditionner(A)}) = 81 operations, plus (after the first) 'assign the solver to another long-lived solver and continue with that one' and 'continue with a copy-constructed solver'; the model tracks the configured preconditioner; buffers NaN-poisoned before each problem; result vs fresh solver within 256*9 eps");
   o.str("S_long", "a fixed script of 40 problems cycling through the 81 kinds on one solver, and every variant with ONE position replaced by any of the 83 operations (deviation bound 1); same oracle after every step");
